@@ -109,6 +109,8 @@ func zStreamValue(kind int, tag string, shared *ZInner) interface{} {
 		return string(rs)
 	case 16: // 18 distinct classes: the last instances use the long 'O' form
 		return zManyClasses(18, zSmall(tag), 16)
+	case 17: // a struct without fields: an object all the same, with an ordinal of its own
+		return &ZEmpty{}
 	case 13:
 		return zSharedList // the same list every time: later occurrences travel as back-references
 	case 14:
@@ -142,6 +144,9 @@ func zStreamEq(kind int, a, b interface{}) bool {
 			same = vAnd(same, zClassV(x[i]) == zClassV(want[i]))
 		}
 		return same
+	case 17:
+		x, ok := b.(*ZEmpty)
+		return ok && x != nil
 	case 2, 4:
 		x, ok := b.(*ZInner)
 		return ok && x != nil && eqZInner(a.(*ZInner), x)
@@ -192,11 +197,11 @@ func H_C06_stream() {
 		n = 3
 	}
 	shared := &ZInner{N: 42, S: "shared"}
-	tm, nm := vExtractAll(&ZOuter{P: &ZInner{}}, []int32{}, map[string]int32{"k": 1}, zManyClasses(19, 0, -1))
+	tm, nm := vExtractAll(&ZOuter{P: &ZInner{}}, &ZEmpty{}, []int32{}, map[string]int32{"k": 1}, zManyClasses(19, 0, -1))
 	kinds := make([]int, n)
 	vals := make([]interface{}, n)
 	for i := range vals {
-		kinds[i] = vChoice("kind", 17)
+		kinds[i] = vChoice("kind", 18)
 		vals[i] = zStreamValue(kinds[i], "v", shared)
 	}
 	viaSerializer := vChoice("api", 2) == 1
